@@ -931,8 +931,11 @@ type hres struct {
 	sid    string
 }
 
-func closeRace(name string, handshakes int, withLive, withPoll bool, bound int) *vx.Scenario {
-	sc := &vx.Scenario{Name: name, PreemptOnly: true, Horizon: time.Second}
+// closeRace: `handshakes` handshake threads || Server.Close (|| a poll on a session that was live before).
+// delayBounded selects the delay-bounding cost model (every non-default choice costs) instead of CHESS
+// (only preemptions cost) for the scenarios with many short-lived threads.
+func closeRace(name string, handshakes int, withLive, withPoll bool, bound int, delayBounded bool) *vx.Scenario {
+	sc := &vx.Scenario{Name: name, PreemptOnly: !delayBounded, Horizon: time.Second}
 	if bound < 0 {
 		sc.Unbounded = true
 	} else {
@@ -1141,23 +1144,32 @@ func generatedIDs(n int, random bool) (distinct int, err error) {
 // ---------------------------------------------------------------- main
 
 func scenarios(tier string) []*vx.Scenario {
-	b := 2
-	if tier == "thorough" {
-		b = 3
+	const chess, delay = false, true
+	if tier != "thorough" {
+		return []*vx.Scenario{
+			// bounded first: its counterexample has the fewest preemptions and is the one reported
+			closeRace("close/handshake-vs-close/preemption-bound-2", 1, false, false, 2, chess),
+			closeRace("close/handshake-vs-close/all-interleavings", 1, false, false, -1, chess),
+			closeRace("close/poll-vs-close/preemption-bound-2", 0, true, true, 2, chess),
+			closeRace("close/handshake-vs-close-with-live-session/delay-bound-3", 1, true, false, 3, delay),
+			closeRace("close/handshake-vs-close-vs-poll/delay-bound-3", 1, true, true, 3, delay),
+			closeRace("close/2-handshakes-vs-close/delay-bound-3", 2, false, false, 3, delay),
+			collideScenario(2),
+		}
 	}
-	if v, err := strconv.Atoi(os.Getenv("C17_BOUND")); err == nil {
-		b = v
+	return []*vx.Scenario{
+		closeRace("close/handshake-vs-close/preemption-bound-3", 1, false, false, 3, chess),
+		closeRace("close/handshake-vs-close/all-interleavings", 1, false, false, -1, chess),
+		closeRace("close/poll-vs-close/preemption-bound-3", 0, true, true, 3, chess),
+		closeRace("close/poll-vs-close/all-interleavings", 0, true, true, -1, chess),
+		closeRace("close/handshake-vs-close-with-live-session/preemption-bound-2", 1, true, false, 2, chess),
+		closeRace("close/handshake-vs-close-with-live-session/delay-bound-4", 1, true, false, 4, delay),
+		closeRace("close/handshake-vs-close-vs-poll/preemption-bound-1", 1, true, true, 1, chess),
+		closeRace("close/handshake-vs-close-vs-poll/delay-bound-4", 1, true, true, 4, delay),
+		closeRace("close/2-handshakes-vs-close/preemption-bound-1", 2, false, false, 1, chess),
+		closeRace("close/2-handshakes-vs-close/delay-bound-4", 2, false, false, 4, delay),
+		collideScenario(3),
 	}
-	s := []*vx.Scenario{
-		// bounded first: its counterexample has the fewest preemptions and is the one reported
-		closeRace("close/handshake-vs-close/bounded", 1, false, false, b),
-		closeRace("close/handshake-vs-close/all-interleavings", 1, false, false, -1),
-		closeRace("close/handshake-vs-close-with-live-session", 1, true, false, b),
-		closeRace("close/handshake-vs-close-vs-poll", 1, true, true, b),
-		closeRace("close/2-handshakes-vs-close", 2, false, false, b),
-		collideScenario(b),
-	}
-	return s
 }
 
 func extra(tier string, r *vx.Report) {
